@@ -37,6 +37,12 @@ HEADER = ('From Coq Require Import List Bool Arith ZArith QArith.\n'
           'Definition model (x : nat * list qsig * list qsig) :=\n'
           "  let '(n, gts, eqs) := x in match infer_domain n gts eqs with Ok r => Some r | Err _ => None end.\n"
           'Definition out_eqb := option_eqb (pair_eqb (pair_eqb sigs_eqb sigs_eqb) (list_eqb lcon_eqb)).')
+HEADER_POLY = ('From Coq Require Import List Bool Arith ZArith QArith.\n'
+               'From SageVerif Require Import Model.Signomial Model.SigExpr Model.SolverForms Model.ConGen Model.PolyDom Base.Corr.\nImport ListNotations.\n'
+               'Definition sigs_eqb := list_eqb (fun f g => sig_out_eqb (Some f) (Some g)).\n'
+               'Definition model_sel (x : list qsig * list qsig) :=\n'
+               '  (match valid_gp_poly_ineqs (fst x) with Ok r => Some r | Err _ => None end, valid_gp_poly_eqs (snd x)).\n'
+               'Definition sel_eqb := pair_eqb (option_eqb sigs_eqb) sigs_eqb.')
 
 
 def gen_con(rng, n, eq=False):
@@ -372,6 +378,47 @@ def run(ctx):
             model_out = vlib.coq_show(HEADER, 'model %s' % cases[idx][1])
             ctx.problem('correspondence', 'suite infer_domain: model and implementation disagree on %s; impl=%s model=%s'
                         % (cases[idx][0], cases[idx][2][:900], model_out[:900]), inputs=cases[idx][0], failing_input_found=False)
+    # selection of the convexifiable POLYNOMIAL constraints (Model/PolyDom.v)
+    import sageopt as so
+    sel = []
+    for _ in range(ctx.n(200, 2000)):
+        n = ctx.rng.randint(1, 3)
+
+        def gen_poly():
+            rows = []
+            style = ctx.rng.choice(['even', 'even', 'even', 'mixed'])
+            for _k in range(ctx.rng.randint(1, 4)):
+                a = [Fraction(ctx.rng.choice([0, 0, 2, 4] if style == 'even' else [0, 1, 2, 3])) for _j in range(n)]
+                if a not in [r for r, _ in rows]:
+                    rows.append((a, Fraction(ctx.rng.choice([-1, -2, -3, 1, 2, -1, 0]), ctx.rng.choice([1, 1, 2]))))
+            if ctx.rng.random() < 0.3:       # no positive coefficient at all
+                rows = [(a, -abs(c)) for a, c in rows]
+            return rows
+        gs = [gen_poly() for _ in range(ctx.rng.randint(0, 3))]
+        hs = [gen_poly() for _ in range(ctx.rng.randint(0, 2))]
+        mk = lambda rows: so.Polynomial(np.array([[float(v) for v in a] for a, _ in rows]).reshape(len(rows), n), np.array([float(c) for _, c in rows]))
+        gp, hp = [mk(r) for r in gs], [mk(r) for r in hs]
+        with warnings.catch_warnings():
+            warnings.simplefilter('ignore')
+            try:
+                kept = vlib.Some([c12.canon(g) for g in cg.valid_gp_representable_poly_inequalities(gp)])
+                ctx.count('poly_selection', 'ok')
+            except RuntimeError:
+                kept = None
+                ctx.count('poly_selection', 'RuntimeError')
+            kept_eq = [c12.canon(h) for h in cg.valid_gp_representable_poly_eqs(hp)]
+        sel.append(({'gts': str(gs), 'eqs': str(hs)}, cq(([c12.canon(g) for g in gp], [c12.canon(h) for h in hp])), cq((kept, kept_eq))))
+    ctx.evaluations += len(sel)
+    mism, err = vlib.run_suite_in_coq(ctx.pid, 'poly_selection', HEADER_POLY, 'model_sel', 'sel_eqb', 'list qsig * list qsig',
+                                      'option (list qsig) * list qsig', [(c[1], c[2]) for c in sel], shard=200)
+    ctx.suites['poly_selection'] = {'cases': len(sel), 'mismatches': None if mism is None else len(mism)}
+    if err:
+        ctx.problem('correspondence', 'suite poly_selection: ' + err)
+    else:
+        for idx in mism[:3]:
+            model_out = vlib.coq_show(HEADER_POLY, 'model_sel %s' % sel[idx][1])
+            ctx.problem('correspondence', 'suite poly_selection: model and implementation disagree on %s; impl=%s model=%s'
+                        % (sel[idx][0], sel[idx][2][:600], model_out[:600]), inputs=sel[idx][0], failing_input_found=False)
     npoly = 0
     for _ in range(ctx.n(40, 400)):
         why, info = oracle_poly_domain(ctx.rng)
